@@ -940,10 +940,14 @@ class SymExec(object):
         elif isinstance(s, ast.If):
             c = self.ev(s.test, st)
             for pol, body in ((True, s.body), (False, s.orelse)):
-                st2 = st.copy()
-                record_cond(st2, c, pol, s)
-                for r in self.block(body, st2):
-                    yield r
+                for alt in expand_cond(c, pol):
+                    st2 = st.copy()
+                    for a_, p_ in alt:
+                        record_cond(st2, a_, p_, s)
+                    if contradictory(st2.conds):
+                        continue        # the same elementary test with both outcomes: not a path
+                    for r in self.block(body, st2):
+                        yield r
         elif isinstance(s, ast.For) and self.fold_loops and self._fold_loop(s, st):
             yield st, 'fall'
         elif isinstance(s, (ast.For, ast.AsyncFor)):
@@ -1081,10 +1085,14 @@ class SymExec(object):
                 for pol, body in ((True, s.body), (False, s.orelse)):
                     if known is not None and pol != known:
                         continue
-                    st3 = st2.copy()
-                    record_cond(st3, c, pol, s)
-                    for r in self.block(body, st3):
-                        yield r
+                    for alt in expand_cond(c, pol):
+                        st3 = st2.copy()
+                        for a_, p_ in alt:
+                            record_cond(st3, a_, p_, s)
+                        if contradictory(st3.conds):
+                            continue
+                        for r in self.block(body, st3):
+                            yield r
 
     def _fold_loop(self, s, st):
         """a `for` loop whose only effect is appending to one list that is still empty is the comprehension it spells
@@ -1323,6 +1331,51 @@ def guards_of(st, ev):
     if r is not None and r[0] is ev:
         return r[1]
     return ()
+
+
+def contradictory(conds):
+    """does the list of recorded tests contain one elementary test with both outcomes?  (`x == y` / `x != y`,
+    `x is None` / `x is not None`, `not x` ... are the same test; tests on terms that a write in between may have
+    changed are never merged because the walker gives re-evaluated terms their new value)"""
+    from . import logic
+    seen = {}
+    for c in conds:
+        f = logic.formula(c[0])
+        pol = c[1]
+        if f[0] == 'not':
+            f, pol = f[1], not pol
+        if f[0] != 'atom':
+            continue
+        if seen.setdefault(f[1], pol) != pol:
+            return True
+    return False
+
+
+def expand_cond(c, pol, limit=32):
+    """the ways a test can come out `pol`, following short-circuit evaluation: a list of alternatives, each a list of
+    (elementary test, polarity).  `if a or b:` then walks exactly like `if a: ... elif b: ...`."""
+    if c[0] == 'unop' and c[1] == 'not':
+        return expand_cond(c[2], not pol, limit)
+    if c[0] == 'bool':
+        conj = (c[1] == 'and') == pol          # all members must come out `pol`
+        if conj:
+            alts = [[]]
+            for x in c[2]:
+                alts = [a + b for a in alts for b in expand_cond(x, pol, limit)]
+                if len(alts) > limit:
+                    return [[(c, pol)]]
+            return alts
+        alts = []
+        prefix = [[]]
+        for x in c[2]:
+            for pre in prefix:
+                for b in expand_cond(x, pol, limit):
+                    alts.append(pre + b)
+            prefix = [a + b for a in prefix for b in expand_cond(x, not pol, limit)]
+            if len(alts) + len(prefix) > limit:
+                return [[(c, pol)]]
+        return alts
+    return [[(c, pol)]]
 
 
 def record_cond(st, c, pol, node):
